@@ -1,7 +1,24 @@
 from tools.drive import Unit
 
-UNITS = [
-    Unit(name="c06.func_detail_init", props=["C06"], tu="inst/func_detail.cpp", roots=["asmjit::FuncDetail::init"], target="FuncDetail_init",
-         contracts="contracts/c06_abi.h", unwind=34, quick_defines=["VERIF_MAXARGS=10"], thorough_defines=["VERIF_MAXARGS=32"], timeout=1700,
-         note="x86-64 SysV / Win64 and AArch64 AAPCS64 / Apple, every signature of integer, float and vector arguments; loops bounded by the code's own kMaxFuncArgs = 32 (thorough) - quick checks signatures of <= 10 arguments"),
-]
+INST = "inst/func_detail.cpp"
+ABI = "contracts/c06_abi.h"
+NAMES = {1: "sysv64", 2: "win64", 3: "aapcs64", 4: "apple64"}
+
+
+def cc_unit(abi):
+    ns = "x86" if abi <= 2 else "a64"
+    return Unit(name="c06.init_call_conv." + NAMES[abi], props=["C06"], tu=INST, roots=["asmjit::%s::FuncInternal::init_call_conv" % ns],
+                target="%s_FuncInternal_init_call_conv" % ns, contracts=ABI, defines=["VERIF_ABI=%d" % abi], unwind=130,
+                note="the CallConv record equals the ABI's table (argument register order, callee-saved sets, red/home zone, alignment); loop-free code")
+
+
+def fd_unit(abi):
+    ns = "x86" if abi <= 2 else "a64"
+    return Unit(name="c06.init_func_detail." + NAMES[abi], props=["C06"], tu=INST, roots=["asmjit::%s::FuncInternal::init_func_detail" % ns],
+                target="%s_FuncInternal_init_func_detail" % ns, contracts=ABI, defines=["VERIF_ABI=%d" % abi], unwind=34, quick_unwind=10, unwindset=["c_order_is.0:17"],
+                quick_defines=["VERIF_MAXARGS=8"], thorough_defines=["VERIF_MAXARGS=32"], object_bits=9, timeout=1700, replay="replay/c06_func_detail.cpp",
+                note="given the ABI's CallConv record (what init_call_conv is proved to produce), every signature of integer/float/vector arguments; "
+                     "argument loops bounded by the code's own kMaxFuncArgs = 32 (thorough: complete); quick checks signatures of <= 8 arguments")
+
+
+UNITS = [cc_unit(a) for a in (1, 2, 3, 4)] + [fd_unit(a) for a in (1, 2, 3, 4)]
